@@ -107,6 +107,16 @@ fn main() { loop { nap(); } }`},
 	{name: "spawn-sleep-years", endless: true, vmOnly: true, check: noOutput, src: `
 fn w(id: int) { time.sleep(500000000.0 + 1.0); println("w woke", id); }
 fn main() { for i in 0..N { spawn w(i); } time.sleep(700000000.0); println("main woke"); }`},
+	{name: "string-builtins-edge-arguments", endless: false, check: nil, src: `
+fn main() {
+    println("smarthome".split("").len(), "a,b".split(",").len(), "".split(",").len(), "".split("").len());
+    println("abc".replace("b", "").len(), "abc".repeat(0).len(), "abc".contains(""), "".contains(""));
+    let l: [int] = [];
+    l.sort();
+    println(l.len(), l.contains(1));
+    let e: [str] = [];
+    println(e.join(","), ["a"].join(""));
+}`},
 	{name: "pow-huge-exponent", endless: false, check: nil, src: `
 fn main() {
     let b = 3;
@@ -272,7 +282,7 @@ func c10Exec(t *testing.T, spec RunSpec, cancelAt int64, deadline time.Duration,
 	res := simrt.Run(t, simConfig(spec.Sim), simSource(spec), func(s *simrt.Sim) {
 		ctx.OnCancel = func() {
 			s.Probe("cancel-fired")
-			if backend == 0 {
+			if backend == 0 && spec.F("ctx_deadline", 0) != 2 { // (a deadline of the context itself: its timer, not this call, is the instant of the cancel)
 				alive := 0
 				if s.CallerIsProgram() {
 					alive++ // the cancel fires inside a poll of one of the program's own tasks
@@ -301,6 +311,21 @@ func c10Exec(t *testing.T, spec RunSpec, cancelAt int64, deadline time.Duration,
 			}
 		}
 		startCanceller := func() {
+			if arm {
+				// (after the VM has been constructed: a context that ends while NewVM runs the
+				// initialisers makes NewVM panic by design)
+				switch spec.F("ctx_deadline", 0) {
+				case 1:
+					// the host's context also has a deadline far in the future; the host cancels explicitly
+					ctx.WithDeadline(time.Hour)
+				case 2:
+					// the context ends through its own deadline (nobody calls cancel): that is a cancellation
+					// like any other ("once the host cancels the execution context")
+					if deadline > 0 {
+						ctx.WithDeadline(deadline)
+					}
+				}
+			}
 			ctx.ResetPolls()
 			ctx.CancelAt = cancelAt
 			d, why := deadline, "deadline"
@@ -507,7 +532,8 @@ func runC10(t *testing.T, spec RunSpec) *Verdict {
 		v.fail(P, "infra", "", "", "host did not return and the simulator reported nothing")
 		return v
 	}
-	cancelled := res.Probes["cancel-fired"] > 0
+	// (a context that ends through its own deadline is cancelled, whoever notices it first)
+	cancelled := res.Probes["cancel-fired"] > 0 || spec.F("ctx_deadline", 0) == 2 && deadline > 0
 	// (7) the interrupt's span can be read
 	if rr.spanErr != "" {
 		v.fail(P, "host-crash", "interrupt-span", backend, "GetSpan() of the returned interrupt panicked: "+rr.spanErr)
@@ -661,6 +687,12 @@ func planC10(t *testing.T, tier string, seed uint64) ([]RunSpec, error) {
 				for j := 0; j < nbig; j++ {
 					us := 1 + r.Intn(200000)
 					add(map[string]int{"deadline_us": us}, 1)
+				}
+				// contexts that have a deadline of their own: far away while the host cancels explicitly, or
+				// as the only thing that ends the context
+				for j := 0; j < nbig/2+1; j++ {
+					add(map[string]int{"cancel_at": 1 + r.Intn(int(top)+3), "ctx_deadline": 1}, 1)
+					add(map[string]int{"deadline_us": 1 + r.Intn(200000), "ctx_deadline": 2}, 1)
 				}
 				// ... and, for programs that end, around the instant at which they end under the default
 				// schedule: the cancel lands just before the end, or after it but before the wait has noticed
